@@ -352,7 +352,7 @@ pub fn c09_exhaustive(tier: &str, acc: &mut Acc) -> Value {
 pub const META_C12: Meta = Meta {
     id: "C12",
     level: "exploration",
-    rule: "Each case takes one generated valid program (accepted by the crate in the same run, so a rejection is due to the edit) and applies every applicable instance of 11 single grammar-breaking edit operators, working on token spans found by the harness tokenizer: M1 delete a block's `end loop`/`end while`; M2 swap `end loop`<->`end while`, bare `end`, `end repeat`; M3 insert `end loop`/`end while` at top level; M4 delete / append one row entry, bits(k+-1,..); M5 delete one `;` `)` `(` `,`; M6 unknown function name, one argument more / fewer; M7 replace a literal by 2^63 / 2^64 in decimal, hex, binary, octal; M8 bits(k,..) with k in {65,100,255,256,10^6} and k+256, k+512, k+2^16, k+2^32; M9 duplicate a header name, duplicate a declare; M10 header only, no line break; M11 truncate at every token boundary at block depth > 0 or strictly inside a statement; M12 more tokens on the same line after a complete statement (`let a = 1; 1 0`, `end loop 1`), `end loopx`; M13 letters glued to a number - each in three endings {as is, trailing newline added, trailing newlines removed} and in LF and CRLF. A mutant counts only if it is invalid by construction AND the independent recogniser refparse rejects it (so a mistake in either cannot alarm alone); then from_str must return Err. Ok = violation; a panic is C09's business and only counted. Non-trivial = a confirmed-invalid mutant of an accepted parent, distinct by text.",
+    rule: "Each case takes one generated valid program (accepted by the crate in the same run, so a rejection is due to the edit) and applies every applicable instance of 14 single grammar-breaking edit operators, working on token spans found by the harness tokenizer: M1 delete a block's `end loop`/`end while`; M2 swap `end loop`<->`end while`, bare `end`, `end repeat`; M3 insert `end loop`/`end while` at top level; M4 delete / append one row entry, bits(k+-1,..); M5 delete one `;` `)` `(` `,`; M6 unknown function name, one argument more / fewer; M7 replace a literal by 2^63 / 2^64 in decimal, hex, binary, octal; M8 bits(k,..) with k in {65,100,255,256,10^6} and k+256, k+512, k+2^16, k+2^32; M9 duplicate a header name, duplicate a declare; M10 header only, no line break; M11 truncate at every token boundary at block depth > 0 or strictly inside a statement; M12 more tokens on the same line after a complete statement (`let a = 1; 1 0`, `end loop 1`), `end loopx`; M13 letters glued to a number; M14 a comma where none belongs - dangling before the closing parenthesis, leading after the opening one, doubled, or an empty argument list - in calls of random / ite / signExt and in bits( loop( repeat( while( - each in three endings {as is, trailing newline added, trailing newlines removed} and in LF and CRLF. A mutant counts only if it is invalid by construction AND the independent recogniser refparse rejects it (so a mistake in either cannot alarm alone); then from_str must return Err. Ok = violation; a panic is C09's business and only counted. Non-trivial = a confirmed-invalid mutant of an accepted parent, distinct by text.",
     assumptions: &["refparse.rs (recogniser written from the grammar as stated in C08/C12) confirms invalidity", "harness tokenizer reflex.rs locates tokens"],
     quick_cases: 8000,
     thorough_cases: 200000,
@@ -422,8 +422,36 @@ fn mutants(text: &str, r: &mut Prng) -> Vec<Mutant> {
             }
             K::LParen => push("M5-delete-lparen", splice(t.start, t.end, ""), &mut out),
             K::RParen => push("M5-delete-rparen", splice(t.start, t.end, ""), &mut out),
-            K::Comma => push("M5-delete-comma", splice(t.start, t.end, " "), &mut out),
-            K::Ident if i + 1 < toks.len() && toks[i + 1].k == K::LParen && matches!(w, "random" | "ite" | "signExt") => {
+            K::Comma => {
+                push("M5-delete-comma", splice(t.start, t.end, " "), &mut out);
+                push("M14-double-comma", splice(t.start, t.end, if r.chance(1, 2) { ",," } else { ", ," }), &mut out);
+            }
+            K::Ident | K::Kw if i + 1 < toks.len() && toks[i + 1].k == K::LParen && matches!(w, "random" | "ite" | "signExt" | "bits" | "loop" | "repeat" | "while") => {
+                // M14: argument lists with a dangling / leading comma or no argument at all
+                let mut d = 0i32;
+                let mut close = None;
+                for (j, u) in toks.iter().enumerate().skip(i + 1) {
+                    match u.k {
+                        K::LParen => d += 1,
+                        K::RParen => {
+                            d -= 1;
+                            if d == 0 {
+                                close = Some(j);
+                                break;
+                            }
+                        }
+                        _ => {}
+                    }
+                }
+                if let Some(j) = close {
+                    let c = &toks[j];
+                    push("M14-dangling-comma", splice(c.start, c.start, *r.pick(&[",", " ,", ", "])), &mut out);
+                    push("M14-leading-comma", splice(toks[i + 1].end, toks[i + 1].end, ","), &mut out);
+                    push("M14-empty-argument-list", splice(toks[i + 1].end, c.start, ""), &mut out);
+                }
+                if !matches!(w, "random" | "ite" | "signExt") {
+                    continue;
+                }
                 push("M6-unknown-function", splice(t.start, t.end, "rnd"), &mut out);
                 push("M6-extra-argument", splice(toks[i + 1].end, toks[i + 1].end, "1,"), &mut out);
                 if w != "random" {
@@ -613,7 +641,7 @@ pub fn c12(case_seed: u64, acc: &mut Acc) {
     }
     if ok {
         acc.held += 1;
-        acc.sample(|| json!({"parent": base, "operators": "M1..M11, each x3 endings x LF/CRLF"}));
+        acc.sample(|| json!({"parent": base, "operators": "M1..M14, each x3 endings x LF/CRLF"}));
     }
 }
 
